@@ -76,7 +76,10 @@ type model struct {
 	max      int
 	lastLen  int
 	sessions map[int]map[int]*mstream
-	seq      int
+	// gone: number of items a stream held in its last incarnation when its session was closed
+	// (absent: the stream never existed, or exists again).
+	gone map[[2]int]int
+	seq  int
 }
 
 func sid(i int) string  { return fmt.Sprintf("sess-%d", i) }
@@ -158,7 +161,13 @@ func runSeq(s Script) (res vt.Result) {
 		}
 	}()
 	store := mcp.NewMemoryEventStore(nil)
-	m := &model{max: 10 << 20, sessions: map[int]map[int]*mstream{}}
+	// The default limit is whatever the SDK chose ("a suitable default"), not a number the harness knows.
+	defaultMax := store.MaxBytes()
+	if defaultMax <= 0 {
+		res.Failf("MaxBytes() of a new store is %d, want a positive default", defaultMax)
+		return res
+	}
+	m := &model{max: defaultMax, sessions: map[int]map[int]*mstream{}, gone: map[[2]int]int{}}
 	if s.InitMax > 0 {
 		store.SetMaxBytes(s.InitMax)
 		m.max = s.InitMax
@@ -204,22 +213,34 @@ func runSeq(s Script) (res vt.Result) {
 				res.Failf("step %d: Open: %v", step, err)
 			}
 			get(op.Sess, op.Stream, true)
+			delete(m.gone, [2]int{op.Sess, op.Stream})
+			mayEvict = before > m.max // (lazy catching up, as for close)
 			desc.WriteString("o")
 		case "append":
 			d := payload(m.seq, op.Size)
 			m.seq++
 			if err := store.Append(ctx, sid(op.Sess), stid(op.Stream), d); err != nil {
+				if get(op.Sess, op.Stream, false) == nil {
+					// Accepted: nothing promises that Append without a preceding Open (never opened, or the
+					// session was closed) creates the stream; a refused Append appended nothing.
+					res.Class("append_refused_without_open")
+					desc.WriteString("x")
+					break
+				}
 				res.Failf("step %d: Append: %v", step, err)
 			}
 			ms := get(op.Sess, op.Stream, true)
+			delete(m.gone, [2]int{op.Sess, op.Stream})
 			ms.log = append(ms.log, d)
 			m.lastLen = len(d)
-			mayEvict = before > m.max
+			// The store may purge before or after it stores the item: both keep "never more than the limit
+			// plus the most recent item".
+			mayEvict = before > m.max || before+len(d) > m.max
 			fmt.Fprintf(&desc, "a%d", sizeClass(op.Size, m.max))
 		case "setmax":
 			store.SetMaxBytes(op.N)
 			if op.N == 0 {
-				m.max = 10 << 20
+				m.max = defaultMax // "a suitable default": the one a new store starts with
 			} else {
 				m.max = op.N
 			}
@@ -232,12 +253,18 @@ func runSeq(s Script) (res vt.Result) {
 			if err := store.SessionClosed(ctx, sid(op.Sess)); err != nil {
 				res.Failf("step %d: SessionClosed: %v", step, err)
 			}
+			for st, ms := range m.sessions[op.Sess] {
+				m.gone[[2]int{op.Sess, st}] = len(ms.log)
+			}
 			delete(m.sessions, op.Sess)
+			// A store that is over the limit (allowed after an Append) may also catch up lazily here.
+			mayEvict = before > m.max
 			desc.WriteString("c")
 		case "after":
 			ms := get(op.Sess, op.Stream, false)
+			mayEvict = before > m.max // (lazy catching up, as for close)
 			if ms == nil {
-				// Unknown session/stream: must error, never panic, never yield data.
+				// Unknown session/stream: never panic, never yield data.
 				n := 0
 				var gerr error
 				for _, err := range store.After(ctx, sid(op.Sess), stid(op.Stream), op.Index) {
@@ -247,7 +274,11 @@ func runSeq(s Script) (res vt.Result) {
 					}
 					n++
 				}
-				if gerr == nil || n > 0 {
+				// Data must never come back. An error is demanded only where payloads after the index were
+				// appended and then released by SessionClosed (they were dropped); a stream that never existed
+				// holds nothing after any index, so an empty, error-free answer is accepted there.
+				dropped := m.gone[[2]int{op.Sess, op.Stream}] > op.Index+1
+				if n > 0 || (gerr == nil && dropped) {
 					res.Failf("step %d: After on a closed/never-opened stream yielded %d items, err=%v; want an error", step, n, gerr)
 				}
 				desc.WriteString("u")
@@ -402,7 +433,8 @@ func runConc(s ConcScript) (res vt.Result) {
 			defer wg.Done()
 			for i := 0; i < s.Appends; i++ {
 				size := 8 + s.Sizes[i%len(s.Sizes)]
-				if err := store.Append(ctx, sid(se), stid(st), payload(i, size)); err != nil {
+				if err := store.Append(ctx, sid(se), stid(st), payload(i, size)); err != nil && !(s.CloseSess && se == 1) {
+					// (session 1 is being closed under the appender: a store may refuse Append without a new Open)
 					fail("Append: %v", err)
 				}
 			}
